@@ -185,7 +185,7 @@ class LinesTheory:
                 work.append(("mstart", ch, depth))
             elif d.kind() == z3.Z3_OP_SELECT and not _has_var(e):
                 A = ch[0]
-                if z3.is_const(A) and A.decl().kind() == z3.Z3_OP_UNINTERPRETED:
+                if z3.is_const(A) and A.get_id() in getattr(it, "str_arrays", {}):
                     work.append(("sel", ch, depth))
             stack.extend(ch)
 
@@ -274,6 +274,70 @@ def install(w):
     def m_end(it, f, args, kw, node):
         A, n, i = f.recv.match
         return VInt(mend(A, n, i))
+    def count_lt(it, s):
+        """number of line terminators of the whole string s (needs a base view)."""
+        if s.lit is not None:
+            import re
+            return z3.IntVal(len(re.findall(NEWLINE_PATTERN, s.lit)))
+        A, n = _base(s, "line count")
+        return NLT(A, n)
+    w.count_lt = count_lt
+
+    def p_split(it, f, args, kw, node):
+        pat = f.recv.obj
+        if pat.pattern != NEWLINE_PATTERN:
+            raise Unsupported(f"regex {pat.pattern!r} has no assumed contract")
+        w.trusted_used.add(
+            "re.compile(r'\\r\\n|[\\n\\r]').split(s): a list of 1 + (number of line "
+            "terminators of s) strings (contents not modelled)")
+        c = count_lt(it, args[0])
+        oid = it.fresh_oid()
+        from pyvc.interp import ListObj
+        from pyvc import codec
+        it.st.lists[oid] = ListObj(1 + c, None, "str", codec.fresh_arrays(it, "str", "lines"))
+        it.S.add(c >= 0)
+        from pyvc.sym import VList
+        return VList(oid)
+    w.builtins["Pattern.split"] = p_split
+
+    # string building: the number of line terminators of padded / concatenated strings
+    prev_concat = w.str_concat
+
+    def str_concat(it, a, b):
+        r = prev_concat(it, a, b)
+        try:
+            ca, cb = count_lt(it, a), count_lt(it, b)
+        except Unsupported:
+            return r
+        w.trusted_used.add(
+            "a + b has count_lt(a) + count_lt(b) line terminators unless a ends with CR and b "
+            "starts with LF (then one less)")
+        la = a.length()
+        straddle = z3.And(la > 0, b.length() > 0, a.char(la - 1) == CR, b.char(0) == LF)
+        it.S.add(NLT(r.arr, r.hi) == ca + cb - z3.If(straddle, 1, 0))
+        return r
+    w.str_concat = lambda it, a, b: str_concat(it, a, b)
+
+    prev_rjust = w.builtins["str.rjust"]
+
+    def s_rjust(it, f, args, kw, node):
+        r = prev_rjust(it, f, args, kw, node)
+        fill = args[1] if len(args) > 1 else None
+        if fill is None or (isinstance(fill, VStr) and fill.lit not in ("\r", "\n")):
+            try:
+                c = count_lt(it, f.recv)
+                w.trusted_used.add("s.rjust(w) pads with spaces: the number of line terminators "
+                                   "is that of s")
+                it.S.add(NLT(r.arr, r.hi) == c)
+                n0 = f.recv.length()
+                # padding characters are the fill character (space by default)
+                it.S.add(z3.Implies(r.hi > n0, z3.Select(r.arr, 0) == 32))
+                it.S.add(z3.Implies(z3.And(r.hi > n0, n0 == 0), z3.Select(r.arr, r.hi - 1) == 32))
+            except Unsupported:
+                pass
+        return r
+    w.builtins["str.rjust"] = s_rjust
+
     w.builtins["match.start"] = m_start
     w.builtins["match.end"] = m_end
 
@@ -301,6 +365,16 @@ def install(w):
             z3.Implies(k == 0, LLS(A, n, t) == 0),
         ))
     w.spec_funcs["match_link"] = f_match_link
+
+    def f_match_start(it, body, k):
+        A, n = _base(body, "match_start")
+        return VInt(MSTART(A, n, it.as_int(k, None)))
+
+    def f_match_end(it, body, k):
+        A, n = _base(body, "match_end")
+        return VInt(mend(A, n, it.as_int(k, None)))
+    w.spec_funcs["match_start"] = f_match_start
+    w.spec_funcs["match_end"] = f_match_end
 
 
 # ------------------------------------------------------------------------------------ lemmas
